@@ -195,6 +195,13 @@ func runSlotCase(ctx *Ctx, c slotCase) {
 	ctx.Res.Count(fmt.Sprintf("max=%d", c.Max))
 	ctx.Res.Count(fmt.Sprintf("procs=%d", len(c.Cores)))
 	if rr.Exit == -2 || (rr.Exit == 2 && strings.Contains(rr.Stderr, "all goroutines are asleep")) {
+		// what did run before the workflow got stuck still has to respect the bound
+		if best, set := maxOverlap(cmdIntervals(rr.Trace, coresOf)); best > c.Max && ctx.Prop == "C06" {
+			ctx.Res.Violate(Violation{What: fmt.Sprintf("commands executing simultaneously weigh %d cores > maxConcurrentTasks %d: %v (the workflow did not terminate afterwards)", best, c.Max, set), Class: "slots.overbound", Witness: c})
+		}
+		if w := wallOverlap(rr.CmdTrace, coresOf); w > c.Max && ctx.Prop == "C06" {
+			ctx.Res.Violate(Violation{What: fmt.Sprintf("commands' own timestamps overlap with total weight %d > max %d (the workflow did not terminate afterwards)", w, c.Max), Class: "slots.overbound", Witness: c})
+		}
 		v := Violation{What: "workflow of slot-competing tasks did not terminate (deadlock or hang; exit " + fmt.Sprint(rr.Exit) + ")", Class: "slots.deadlock", Witness: c}
 		if ctx.Prop == "C07" {
 			ctx.Res.Violate(v)
@@ -288,6 +295,10 @@ func checkC06(ctx *Ctx) {
 	cases := []slotCase{{Max: 2, Cores: []int{2, 2}, Tasks: []int{3, 3}, SleepMs: 30}, {Max: 3, Cores: []int{2, 1, 3}, Tasks: []int{3, 4, 2}, SleepMs: 25},
 		{Max: 2, Cores: []int{1}, Tasks: []int{12}, SleepMs: 30, Pre: true}, {Max: 2, Cores: []int{2, 1}, Tasks: []int{8, 6}, SleepMs: 30, Pre: true},
 		{Max: 1, Cores: []int{1}, Tasks: []int{6}, SleepMs: 20}, {Max: 4, Cores: []int{3, 2}, Tasks: []int{4, 4}, SleepMs: 25, Delay: "inc.token:5"}}
+	// a multi-core task asking for slots while some, but not enough, are free (several single-core tasks running)
+	for k := 0; k < 4; k++ {
+		cases = append(cases, slotCase{Max: 4, Cores: []int{1, 2}, Tasks: []int{6, 4}, SleepMs: 60}, slotCase{Max: 5, Cores: []int{1, 3}, Tasks: []int{6, 3}, SleepMs: 60, Delay: "inc.token:3"})
+	}
 	for i := 0; i < n; i++ {
 		cases = append(cases, genSlotCase(r, ctx.Thorough()))
 	}
